@@ -58,6 +58,7 @@ fn gen_case(r: &mut Rng) -> Case {
 }
 
 fn run_impl(c: &Case) -> Vec<Obs> {
+    kvh::panicrec::set_input_debug(c);
     let lim = RateLimiter::new_with_global(c.global);
     let mut out = vec![];
     for op in &c.ops {
@@ -234,6 +235,7 @@ fn concurrent_stream(rounds: usize, seed: u64) -> (usize, Vec<serde_json::Value>
 }
 
 fn main() {
+    kvh::panicrec::install();
     let args: Vec<String> = std::env::args().collect();
     let mut out = String::from("/tmp");
     let mut n = 300usize;
